@@ -296,6 +296,17 @@ func checkC19(p *Program, r *Report) {
 		ov := pe.otherVal(ct.tn.Type())
 		b, ok, why := pe.evalBool(m, &ov)
 		key := fmt.Sprintf("%s.%s(Other)", ct.tn.Name(), m.Name())
+		if !ok {
+			// the predicate orders or masks its receiver: fall back to the complete value domain
+			// of 8- and 16-bit code types (exact, just slower)
+			if accepted, done := wholeDomain(pe, m, ct); done {
+				ok, b, why = true, len(accepted) > 0, ""
+				if b {
+					r.Fail("closure-other", key, m.Pos(), "%s.%s accepts undeclared values %v (complete domain enumerated)", ct.tn.Name(), m.Name(), accepted)
+					continue
+				}
+			}
+		}
 		switch {
 		case !ok:
 			r.Fail("closure-other", key, m.Pos(), "undecided for a value different from every constant: %s", why)
@@ -817,4 +828,36 @@ func c19Codes(p *Program, r *Report, cts []*codeType, prop string) {
 	}
 	// ValueType constants live in package primitive as well (values.go); covered when declared as a named type.
 	_ = pk
+}
+
+// wholeDomain evaluates a predicate for every value of an 8- or 16-bit code type and returns the
+// undeclared values it accepts; done=false when the domain is larger or an evaluation is undecided.
+func wholeDomain(pe *penum, m *types.Func, ct *codeType) (accepted []string, done bool) {
+	bits, signed, ok := intBits(ct.tn.Type())
+	if !ok || bits > 16 || signed {
+		return nil, false
+	}
+	declared := map[int64]bool{}
+	for _, c := range ct.consts {
+		if i, ok := constant.Int64Val(c.Val()); ok {
+			declared[i] = true
+		}
+	}
+	for v := int64(0); v < 1<<uint(bits); v++ {
+		if declared[v] {
+			continue
+		}
+		rv := constVal(constant.MakeInt64(v), ct.tn.Type())
+		b, ok, _ := pe.evalBool(m, &rv)
+		if !ok {
+			return nil, false
+		}
+		if b {
+			accepted = append(accepted, fmt.Sprintf("%#x", v))
+			if len(accepted) > 8 {
+				break
+			}
+		}
+	}
+	return accepted, true
 }
